@@ -1547,14 +1547,11 @@ func populateRawProofs(context, didID, baseURI string, proofs []Proof) []interfa
 		rawProof := map[string]interface{}{
 			jsonldType:    p.Type,
 			jsonldCreated: p.Created,
+			jsonldCreator: creator,
 			k:             sigproof.EncodeProofValue(p.ProofValue, p.Type),
 		}
 
 		// optional members are written only when they are set
-		if creator != "" {
-			rawProof[jsonldCreator] = creator
-		}
-
 		if p.Domain != "" {
 			rawProof[jsonldDomain] = p.Domain
 		}
